@@ -99,8 +99,11 @@ def atoi (s : Bytes) : Int :=
 /-- `static_cast<unsigned short>(port)` -/
 def toU16 (v : Int) : Nat := (v % 65536).toNat
 
+/-- decimal digits of a natural number (`%d` / `std::to_string`) -/
+def decDigits (n : Nat) : Bytes := (Nat.toDigits 10 n).map (fun c => c.toNat.toUInt8)
+
 /-- `snprintf(port_str, 10, "%d", port)`: at most nine characters survive -/
-def portStr (v : Int) : Bytes := (ofStr (toString v)).take 9
+def portStr (v : Int) : Bytes := (if v < 0 then 45 :: decDigits (-v).toNat else decDigits v.toNat).take 9
 
 /-! ### `forward_request`, the rewriting part -/
 
@@ -242,19 +245,25 @@ def writeServerSendBuffer (p : Px) : Px × List Act :=
 def openForward (p : Px) (addr : Bytes) (port : Nat) (v4 : Bool) : Px × List Act :=
   ({ p with srvOpen := true }, [.openServer v4, .connect addr port p.session])
 
-/-- `send_response(code, message)` with the default `len = 0`, no extra headers -/
-def sendResponse (code : Nat) (msg : String) : Bytes :=
-  ofStr ("HTTP/1.1 " ++ toString code ++ " " ++ msg ++ "\r\ncontent-length: 0\r\n\r\n")
+def HTTP11_SP : Bytes := [72, 84, 84, 80, 47, 49, 46, 49, 32]                     -- "HTTP/1.1 "
+def CONTENT_LENGTH_0 : Bytes := [99, 111, 110, 116, 101, 110, 116, 45, 108, 101, 110, 103, 116, 104, 58, 32, 48]   -- "content-length: 0"
+def MSG_RESOURCE : Bytes := [82, 101, 115, 111, 117, 114, 99, 101, 32, 84, 101, 109, 112, 111, 114, 97, 114, 105, 108, 121, 32, 85, 110, 97, 118, 97, 105, 108, 97, 98, 108, 101]   -- "Resource Temporarily Unavailable"
+def MSG_SERVICE : Bytes := [83, 101, 114, 118, 105, 99, 101, 32, 84, 101, 109, 112, 111, 114, 97, 114, 105, 108, 121, 32, 85, 110, 97, 118, 97, 105, 108, 97, 98, 108, 101]    -- "Service Temporarily Unavailable"
+
+/-- `send_response(code, message)` with the default `len = 0`, no extra headers:
+    `"HTTP/1.1 " + to_string(code) + " " + message + "\r\n" + "content-length: 0\r\n" + "\r\n"` -/
+def sendResponse (code : Nat) (msg : Bytes) : Bytes :=
+  HTTP11_SP ++ decDigits code ++ [32] ++ msg ++ CRLF ++ CONTENT_LENGTH_0 ++ CRLF ++ CRLF
 
 /-- `error(code, message)` -/
-def error (p : Px) (code : Nat) (msg : String) : Px × List Act :=
+def error (p : Px) (code : Nat) (msg : Bytes) : Px × List Act :=
   let resp := sendResponse code msg
   match memWrite p.inb 0 resp with
   | .error _ => (p, [.ub "m_in_buffer"])
   | .ok inb => ({ p with inb := inb }, [.writeClient resp .closeConn p.session])
 
-def resp503Lookup : Bytes := sendResponse 503 "Resource Temporarily Unavailable"
-def resp503Connect : Bytes := sendResponse 503 "Service Temporarily Unavailable"
+def resp503Lookup : Bytes := sendResponse 503 MSG_RESOURCE
+def resp503Connect : Bytes := sendResponse 503 MSG_SERVICE
 
 /-- the completion lambda of `error()`'s write -/
 def onErrorWritten (p : Px) (ses : Nat) (ec : Ec) : Px × List Act :=
@@ -334,9 +343,9 @@ def onReadRequest (lit : Bytes → Option Bool) (p : Px) (ses : Nat) (ec : Ec) (
 def onDomainLookup (p : Px) (ses : Nat) (ec : Ec) (ips : List (Bytes × Nat × Bool)) : Px × List Act :=
   if stale p ses ec then (p, []) else
   match ips with
-  | [] => error { p with connecting := false } 503 "Resource Temporarily Unavailable"
+  | [] => error { p with connecting := false } 503 MSG_RESOURCE
   | (a, port, v4) :: _ =>
-    if ec ≠ .ok then error { p with connecting := false } 503 "Resource Temporarily Unavailable"
+    if ec ≠ .ok then error { p with connecting := false } 503 MSG_RESOURCE
     else openForward p a port v4
 
 /-- `on_connected(session, ec)` -/
@@ -344,7 +353,7 @@ def onConnected (p : Px) (ses : Nat) (ec : Ec) : Px × List Act :=
   if stale p ses ec then (p, []) else
   let p := { p with connecting := false }
   if ec ≠ .ok then
-    let r := error { p with srvOpen := false } 503 "Service Temporarily Unavailable"
+    let r := error { p with srvOpen := false } 503 MSG_SERVICE
     (r.1, .closeServer :: r.2)
   else
     let r := writeServerSendBuffer p
